@@ -156,6 +156,9 @@ func (p *PanicInfo) String() string {
 	return fmt.Sprintf("panic[%s] %s at %s", k, p.Text, p.Frame)
 }
 
+// Classify describes a recovered panic value (to be called from the deferred function).
+func Classify(r interface{}) *PanicInfo { return classify(r) }
+
 func classify(r interface{}) *PanicInfo {
 	p := &PanicInfo{Value: r, Text: fmt.Sprint(r)}
 	if _, ok := r.(xdoc.BudgetExceeded); ok {
@@ -171,7 +174,7 @@ func classify(r interface{}) *PanicInfo {
 	}
 	// first frame inside the engine
 	pcs := make([]uintptr, 64)
-	n := runtime.Callers(3, pcs)
+	n := runtime.Callers(2, pcs)
 	fr := runtime.CallersFrames(pcs[:n])
 	for {
 		f, more := fr.Next()
